@@ -93,6 +93,9 @@ def ctor_kwargs(a, fx):
     for t in a["tgt"]:
         kw[t] = {"target_classes": ["http://e/C"], "file_target_classes": fx.tfile,
                  "shape_map_raw": "<http://e/a>@<http://e/S>", "shape_map_file": fx.smfile}[t]
+    for e in a.get("empty", []):          # present, with an empty value
+        kw[e] = {"raw_graph": "", "rdflib_graph": rdflib.Graph(), "graph_list_of_files_input": [], "list_of_url_input": [],
+                 "target_classes": [], "shape_map_raw": ""}[e]
     if a["allc"]:
         kw["all_classes_mode"] = True
     kw["input_format"] = fmt
@@ -182,6 +185,26 @@ def arg_vectors(tier, rnd):
                         out.append({"id": "a%d" % i, "src": list(ss), "tgt": list(ts), "allc": allc, "comp": comp, "fmt": fmt,
                                     "ex": ex, "disableOr": dor, "redundantOr": ror})
                         i += 1
+    # "given" means "not None": an argument that holds an empty value (an empty string, an empty list, an rdflib Graph without
+    # triples) is present all the same - alone it is the one source, next to another one it makes two
+    EMPTYABLE = ["raw_graph", "rdflib_graph", "graph_list_of_files_input", "list_of_url_input"]
+    for e in EMPTYABLE:
+        out.append({"id": "a%d" % i, "src": [e], "tgt": [], "allc": True, "comp": "none", "fmt": "nt", "ex": "none", "disableOr": True,
+                    "redundantOr": False, "empty": [e]})
+        i += 1
+        for other in SOURCES:
+            if other == e:
+                continue
+            for empties in ([e], [e, other] if other in EMPTYABLE else [e]):
+                out.append({"id": "a%d" % i, "src": sorted([e, other], key=SOURCES.index), "tgt": [], "allc": True, "comp": "none", "fmt": "nt",
+                            "ex": "none", "disableOr": True, "redundantOr": False, "empty": empties})
+                i += 1
+    for tgts, empties in ((["target_classes", "shape_map_raw"], ["target_classes"]), (["target_classes", "shape_map_raw"], ["shape_map_raw"]),
+                          (["target_classes", "file_target_classes"], ["target_classes"]), (["shape_map_raw", "shape_map_file"], ["shape_map_raw"])):
+        for allc in (False, True):
+            out.append({"id": "a%d" % i, "src": ["raw_graph"], "tgt": tgts, "allc": allc, "comp": "none", "fmt": "nt", "ex": "none",
+                        "disableOr": True, "redundantOr": False, "empty": empties})
+            i += 1
     return out
 
 
@@ -213,12 +236,12 @@ def check_c20(out, tier):
     for a, r_ in zip(vectors, results):
         if r_.get("status") == "harness-error":
             raise common.Machinery("harness error: %s\n%s" % (r_.get("exc"), r_.get("trace", "")))
-        traces.append({"id": a["id"], "kind": "ctor", "a": {k: a[k] for k in a if k != "id"}, "ctor": r_["ctor"], "call": r_["call"],
+        traces.append({"id": a["id"], "kind": "ctor", "a": {k: a[k] for k in a if k not in ("id", "empty")}, "ctor": r_["ctor"], "call": r_["call"],
                        "c": {k: calls[0][k] for k in calls[0] if k not in ("id", "history", "source")}, "outcome": ""})
     for c, r_ in zip(calls, cres):
         if r_.get("status") == "harness-error":
             raise common.Machinery("harness error: %s\n%s" % (r_.get("exc"), r_.get("trace", "")))
-        traces.append({"id": c["id"], "kind": "call", "a": {k: vectors[0][k] for k in vectors[0] if k != "id"}, "ctor": "", "call": "",
+        traces.append({"id": c["id"], "kind": "call", "a": {k: vectors[0][k] for k in vectors[0] if k not in ("id", "empty")}, "ctor": "", "call": "",
                        "c": {k: c[k] for k in c if k not in ("id", "history", "source")}, "outcome": r_["outcome"], "history": c["history"] + "/" + c["source"]})
     verdicts, stats = tlc.validate_batch("Trace_Config", "Trace_Config.cfg", traces, procs=12, chunk=None)
     out.traces += len(traces)
